@@ -157,6 +157,7 @@ PROPS["C05"] = dict(
         dict(test="^Test(Regress_C05|C05_AsyncStop)$", quick=dict(checks=150, timeout=900), thorough=dict(checks=3000, shards=8, timeout=3000)),
         dict(test="^TestC05_Kinds$", quick=dict(checks=150, timeout=900), thorough=dict(checks=3000, shards=8, timeout=3000)),
         dict(test="^TestC05_RollingDescriptors$", quick=dict(timeout=900), thorough=dict(shards=4, timeout=3000)),
+        dict(test="^TestC05_SlowDrain$", quick=dict(timeout=300), thorough=dict(timeout=600)),
         dict(test="^TestC05_FailedRefresh$", quick=dict(checks=80, timeout=900), thorough=dict(checks=2000, shards=4, timeout=3000)),
         dict(test="^TestC05_FailingTarget$", quick=dict(checks=60, timeout=900), thorough=dict(checks=1500, shards=2, timeout=3000)),
     ],
